@@ -3,6 +3,7 @@ package main
 // SSA -> verification conditions.
 
 import (
+	"os"
 	"fmt"
 	"go/ast"
 	"go/constant"
@@ -39,7 +40,12 @@ type Unsupported struct{ Msg string }
 
 func (u Unsupported) Error() string { return "unsupported: " + u.Msg }
 
-func unsupported(f string, a ...interface{}) { panic(Unsupported{fmt.Sprintf(f, a...)}) }
+func unsupported(f string, a ...interface{}) {
+	if os.Getenv("VCDEBUG") == "stack" {
+		panic(fmt.Sprintf(f, a...))
+	}
+	panic(Unsupported{fmt.Sprintf(f, a...)})
+}
 
 // Ctx is one verification unit: one function (or lemma) under contract.
 type Ctx struct {
